@@ -3,9 +3,9 @@ CONSTANTS
   NP = 2
   NV = 2
   NPA = 2
-  PageVals <- PagesFull
-  Offs = {0, 4095}
-  Snapshots = FALSE
+  PageVals <- PagesTwo
+  Offs = {0}
+  Snapshots = TRUE
 VIEW View
 ACTION_CONSTRAINT Emit
 INVARIANT TypeOK
